@@ -173,12 +173,36 @@ func gen(g *common.Gen) {
 	seed := uint64(1)
 	for h := 0; h < g.N; h++ {
 		serve := common.Pick(r, []string{"mem", "bolt"})
-		g.Op("new serve=%s", serve)
-		g.Stat("serve-" + serve)
 		if r.Chance(1, 40) {
+			g.Op("new serve=%s", serve)
+			g.Stat("serve-" + serve)
 			genFill(r, g)
 			continue
 		}
+		// 1 in 4 histories: the producer side runs on the real basic.Engine (dummy face); 2 in 3 of those (and a
+		// few on the harness engine) with further handlers of the producer application at sibling prefixes that
+		// share leading components with the object names but cover none of the packets
+		flavour := ""
+		if r.Chance(1, 4) {
+			flavour = " eng=basic"
+			g.Stat("producer-real-engine")
+		}
+		if (flavour != "" && r.Chance(2, 3)) || (flavour == "" && r.Chance(1, 10)) {
+			cand := []string{"/8:6f/8:7a7a", "/8:6f/8:61/8:7a7a", "/8:6f/8:61/8:78/8:7a7a", "/8:70/8:7a7a", "/8:7a7a", "/8:6f/8:62/8:7a7a/8:61", "/8:6f/8:61/8:79/8:7a7a", "/8:6f/8:61/8:79/8:7a/8:7a7a"}
+			var sibs []string
+			for _, x := range cand {
+				if r.Chance(1, 3) {
+					sibs = append(sibs, x)
+				}
+			}
+			if len(sibs) == 0 {
+				sibs = []string{common.Pick(r, cand[:4])}
+			}
+			flavour += " sib=" + strings.Join(sibs, ",")
+			g.Stat("producer-sibling-handler")
+		}
+		g.Op("new serve=%s%s", serve, flavour)
+		g.Stat("serve-" + serve)
 		if r.Chance(1, 8) {
 			genQueued(r, g, &seed)
 			genDirect(r, g)
